@@ -33,6 +33,11 @@ CLAIMED = {
    note="trusted: dense map-based model, Eigen eigen/singular values (n<=60); thread counts above the core count exist only in the simulated runtime",
    technique="deterministic simulation: kernels under simulated thread counts/schedules (both SpGEMM paths) against an exact dense reference model",
    replay="./build/plain/c08 --replay {path}"),
+ "C07": dict(cat="exploration", ref="4 (C07)",
+   text="Decides the clauses of the statement that depend on prior memory content and on threading: every primitive is called inside a simulated OpenMP world (nt 1..32, every static chunking, per-thread partial sums of inner_product, seeded schedule, heap pre-filled with 0xAA) with its output buffer poisoned by NaN/+-Inf whenever the output coefficient is zero, and must return exactly the value of its defining formula (integer-valued data: exact in float, double, long double, complex, 2x2 blocks) on the builtin, block_crs (sizes not divisible by the block), builtin_hybrid and Eigen backends; scalar vectors passed for block vectors must give identical bits. Sampling.",
+   note="trusted: the formulas as coded in the harness (a few lines each); integer data make rounding irrelevant, so summation-order effects are out of scope here (they are C09's)",
+   technique="deterministic simulation: primitives under simulated thread counts/schedules with poisoned output buffers (heap-content fault injection) against exact algebraic formulas",
+   replay="./build/plain/c07 --replay {path}"),
 }
 NA_PURE = {
  "C04": "pure function of (matrix, parameters): aggregation is a serial greedy loop, its parallel loops are statically partitioned without reductions; no schedule, fault or history can change the result (thread-count independence of the operators is exercised under C09)",
